@@ -18,7 +18,7 @@ def is_trivial(line, mo):
 
 
 def generate(rng, tier):
-    ndefs = 40 if tier == "quick" else 2500
+    ndefs = 80 if tier == "quick" else 2500
     for i in range(ndefs):
         d = defgen.Defn(rng, max_depth=rng.choice([1, 2, 3]), fanout=3, neg_lengths=True)
         dsx = sx(d.sexpr())
